@@ -65,12 +65,15 @@ rc, out = run(f'git -C /repo apply {src}/patch.diff'); assert rc == 0, out
 caught = {}
 try:
     ids = [c['property_id'] for c in json.load(open('/verif/MANIFEST.json'))['checks']]
-    for pid in ids:
+    from concurrent.futures import ThreadPoolExecutor
+    def one(pid):
         rc, out = run(f'/verif/bin/soylint check -prop {pid} -repo /repo -no-evidence -out /verif', cwd='/verif')
         v = re.findall(r'^(?:VIOLATED|UNDECIDED) (\S+) (.*?) at ', out, re.M)
         f = re.findall(r'^ANALYSIS-FAILURE.*', out, re.M)
-        if v or f:
-            caught[pid] = [' '.join(x) for x in v][:6] + f[:2]
+        return pid, ([' '.join(x) for x in v][:6] + f[:2]) if (v or f) else None
+    with ThreadPoolExecutor(max_workers=10) as ex:
+        for pid, r in ex.map(one, ids):
+            if r: caught[pid] = r
 finally:
     run('git -C /repo checkout -- . && git -C /repo clean -fdq')
 res['caught_by'] = caught
